@@ -46,7 +46,9 @@ Section Sums4.
     auto_derive.
     - split; [exact Hx|]. split; [exists (msum_dxx n (d / s) y l); apply (DG (d / s)); exact Hx|exact I].
     - unfold Rdiv in *.
-      rewrite (is_derive_unique (fun x => G x) (d * / s) _ (DG _ Hx)). rewrite msum_m_eq by exact Hx. unfold G.
+      match goal with |- context [Derive ?f ?x] =>
+        replace (Derive f x) with (msum_dxx n (d * / s) y l) by (symmetry; apply is_derive_unique; apply (DG _ Hx)) end.
+      rewrite msum_m_eq by exact Hx. unfold G.
       field. split; assumption.
   Qed.
 
